@@ -74,7 +74,7 @@ func (handler *DecryptionKeyHandler) ValidateMessage(ctx context.Context, msg p2
 	if len(decryptionKeys.Keys) == 0 {
 		return pubsub.ValidationReject, errors.New("no keys in message")
 	}
-	if len(decryptionKeys.Keys) > int(handler.config.GetMaxNumKeysPerMessage()) {
+	if uint64(len(decryptionKeys.Keys)) > handler.config.GetMaxNumKeysPerMessage() {
 		return pubsub.ValidationReject, errors.Errorf(
 			"too many keys in message (%d > %d)",
 			len(decryptionKeys.Keys),
